@@ -155,6 +155,45 @@ PROPS["C04"] = {
     "level_note": "Trusted: Lean kernel, harness. One open finding (D24: sender exclusion is by id room).",
     "technique": "Lean 4 proof (invariant + refinement over all histories) + exhaustive/random differential correspondence",
 }
+PROPS["C15"] = {
+    "lean": ["SioVerif.Props.C15"],
+    "components": ["timed:TestReconnect"],
+    "facts": [],
+    "rule": "back-off calculator through its export wrapper: min {1ns,1ms,1s,2^40} x max {1ns,1us,5s,2^53,2^53+3,2^62} x jitter {0,.5,1} x attempt numbers 0..70, 2^31, 2^32-1 "
+            "(equality with the model for jitter 0, range predicates otherwise); a real Manager on the in-memory network under virtual time: ReconnectionAttempts 0..5 x "
+            "server unreachable for 0..6 attempts or for ever x {polling, websocket}, every reconnect_* event with its exact instant; 40 (thorough 1500) random mixes of "
+            "volatile / non-volatile / ack-carrying emits placed before the first connection, right after Connect(), from the open handler (between CONNECT and its reply), "
+            "while up and during an outage, with wire order observed by a decoder tap. Non-trivial = each configuration; distinct by request line / description.",
+    "trusted_base": EXT + ["go1.26.8 testing/synctest virtual clock", "math.Pow / float64 conversions: the model takes them as parameters with three recorded facts (monotone, "
+                           "exact up to 2^53, amd64 out-of-range conversion)", "math/rand cannot be seeded: jittered delays are checked against the proved interval only"],
+    "assumptions": ["over long-polling a cut TCP connection does not end the session while the server stays reachable; that configuration is judged by the predicates, not by the model's instants"],
+    "level_text": "Lean 4 theorems over models of the back-off function (int64 wrap-around explicit, float steps as parameters), the reconnection loop and the offline buffer: "
+                  "every delay is in (0, max] for every attempt number (including overflowing powers and products), every jitter draw and every positive maximum; the first "
+                  "delay is ReconnectionDelay; without jitter the delay doubles up to the maximum; against a server that stays down exactly N attempts are made and "
+                  "reconnect_failed is announced exactly once; if it returns at attempt j the loop ends with reconnect j and no failure; offline emits are delivered as the "
+                  "non-volatile ones in order. The real Manager's event traces under virtual time equal the model's, instant by instant.",
+    "level_note": "Trusted: Lean kernel, synctest, harness. single_loop (no two reconnection loops at once) is exercised, not proved.",
+    "technique": "Lean 4 proof (arithmetic + induction over outage scripts) + virtual-time trace correspondence",
+}
+PROPS["C14"] = {
+    "lean": ["SioVerif.Props.C14"],
+    "components": ["timed:TestHeartbeat"],
+    "facts": ["chanPong", "chanPing", "eioDefaultPingIntervalNs", "eioDefaultPingTimeoutNs"],
+    "rule": "virtual time (synctest). Unit: the real Engine.IO server socket and client socket over a fake transport, pingInterval x pingTimeout in {1s,2s,3s}^2, a scripted "
+            "peer that answers with a random latency below the timeout until a silence starting at every 500 ms (thorough 100 ms) grid point over three periods, plus "
+            "unsolicited PONGs; PING instants and the close instant are compared with the model. System: real sio server and client stacks on the in-memory network, "
+            "black-holed in both / one direction at random grid points on polling, websocket and during the upgrade, and live peers idle for 50 periods with application "
+            "traffic at a random phase. Non-trivial = at least one PONG/PING exchanged before the silence; distinct by request line / description.",
+    "trusted_base": EXT + ["go1.26.8 testing/synctest virtual clock (instants are exact; 'scheduling slack' is outside the model)"],
+    "assumptions": ["a PONG arriving at exactly the timeout instant may go either way (select); generated scripts avoid the tie"],
+    "level_text": "Lean 4 theorems over executable models of the two heartbeat loops, for every pingInterval, pingTimeout and horizon: a silent peer is closed exactly "
+                  "pingInterval + pingTimeout after the loop iteration / timer started (so within that bound of the last sign of life) on both sides; a peer that answers every "
+                  "PING inside the timeout (client: PINGs less than I+T apart) is never closed, for every number of periods; a constant round-trip latency below the timeout "
+                  "keeps both alive; an unsolicited PONG postpones detection by exactly one period. Mailbox capacities come from the source. The real sockets' PING and close "
+                  "instants under a virtual clock equal the model's.",
+    "level_note": "Trusted: Lean kernel, translator (mailbox capacities), synctest. The composition with the transports (who is told what when only one direction is dead) is exercised by the system rig, not modelled.",
+    "technique": "Lean 4 proof over timed loop models + virtual-time correspondence",
+}
 
 NOT_APPLICABLE = [
 ]
